@@ -1,4 +1,4 @@
-\* MC_MxIOSpec_thorough1.cfg2
+\* one model, two names, two csv locations + one module location, space deletion: the COMPLETE reachable state space (histories of any length)
 CONSTANTS
   Models = {"M1"}
   BaseInit = {"M1"}
@@ -6,9 +6,9 @@ CONSTANTS
   CsvLocs = {"p.csv", "q.csv"}
   ModLocs = {"mo.py"}
   PVals = {1, 2}
-  MVals = {3, 4}
+  MVals = {3}
   WithDelSpace = TRUE
-  ExploreTainted = FALSE
+  OpenFindings = {"KF:C18.update-merges-specs"}
   MaxOps = 99
   Dump = TRUE
 VIEW ViewU
@@ -20,4 +20,5 @@ INVARIANT Inv_C18_LocationsUnique
 INVARIANT Inv_C18_RejectedLeavesNothing
 INVARIANT Inv_C18_SanityChecks
 INVARIANT Inv_C18_SavedSpecsRoundTrip
+INVARIANT Inv_NoRepairedFinding
 CHECK_DEADLOCK FALSE
